@@ -27,11 +27,16 @@ def get_lindblad_operators(
                 "hyperfine_dephasing_rate is supported only in the digital basis"
             )
 
-        c = math.sqrt(noise_model.dephasing_rate / 2)
         dephasing = torch.zeros(dim, dim, dtype=dtype)
-
-        dephasing[0, 0] = c
-        dephasing[1, 1] = -c
+        if dim == 2:
+            c = math.sqrt(noise_model.dephasing_rate / 2)
+            dephasing[0, 0] = c
+            dephasing[1, 1] = -c
+        else:
+            # Pulser defines the channel as sqrt(2*rate)|r><r| (|d><d| in XY). With two
+            # levels this equals the traceless form above; with a leakage level it
+            # does not (the traceless form would also dephase |g> against |x>).
+            dephasing[1, 1] = math.sqrt(2 * noise_model.dephasing_rate)
 
         return [dephasing]
 
